@@ -113,13 +113,13 @@ ALTS = {
         "bits": [5], "symmetric": [True], "use_real_sigmoid": [True],
         "use_stochastic_rounding": [True]}),
     "quantized_po2": ({}, {
-        "bits": [5], "max_value": [F(2), 1, F(1, 2), 3],
+        "bits": [5], "max_value": [F(2), 1, F(1, 2), 3, F(5, 4), F(3, 4)],
         "use_stochastic_rounding": [True],
         "quadratic_approximation": [True], "log2_rounding": ["floor"],
         "qnoise_factor": [F(1, 2), 0], "var_name": ["v"], "use_ste": [False],
         "use_variables": [True]}),
     "quantized_relu_po2": ({}, {
-        "bits": [5], "max_value": [F(2), 1, F(1, 2), 3],
+        "bits": [5], "max_value": [F(2), 1, F(1, 2), 3, F(5, 4), F(3, 4)],
         "negative_slope": [F(1, 4)],
         "use_stochastic_rounding": [True], "quadratic_approximation": [True],
         "log2_rounding": ["floor"], "qnoise_factor": [F(1, 2)],
@@ -130,6 +130,19 @@ ALTS = {
         "scale_axis": [(0, dict(alpha="auto"))], "qnoise_factor": [F(1, 2)],
         "var_name": ["v"], "use_variables": [True], "relu_shift": [2],
         "relu_upper_bound": [4]}),
+}
+
+
+# further round-trip points of this check only (option pairs around the
+# boundary where a max_value stops needing an exponent sign bit)
+EXTRA_POINTS = {
+    "quantized_po2": [dict(max_value=F(5, 4), log2_rounding="floor"),
+                      dict(max_value=F(2), quadratic_approximation=True),
+                      dict(max_value=F(3, 2), log2_rounding="floor",
+                           quadratic_approximation=True)],
+    "quantized_relu_po2": [dict(max_value=F(5, 4), log2_rounding="floor"),
+                           dict(max_value=F(2),
+                                quadratic_approximation=True)],
 }
 
 
@@ -214,12 +227,29 @@ def roundtrip(rep, repo, mod, cls, kw, varied):
     if k in kw:
       want = kw[k]
       ok = same_value(v, want)
-      if not ok and cls in ("quantized_bits", "quantized_hswish") and \
-          k == "symmetric" and isinstance(kw.get("alpha"), str):
-        ok = v is True   # documented rewrite: "auto*" => symmetric
+      if not ok:
+        # a constructor may normalise an option (e.g. "auto*" => symmetric);
+        # the stored value must then stand for the same quantizer: built
+        # with it instead of the given value, the function is the same
+        try:
+          pe_n = PE(repo)
+          qa = pe_n.call(pe_n.lookup_global(cls, mod), [], dict(kw))
+          qb = pe_n.call(pe_n.lookup_global(cls, mod), [],
+                         dict(kw, **{k: v}))
+          pe_n.rand_counter = 0
+          oa = pe_n.call(qa, [pe_n.x_input()], {})
+          pe_n.rand_counter = 0
+          ob = pe_n.call(qb, [pe_n.x_input()], {})
+          sy = {"post_training_scale": NF.sym("pts")}
+          ok = all(equal_mod_finite(Fwd(ph, sy)(oa.term),
+                                    Fwd(ph, sy)(ob.term))
+                   for ph in ("infer", "train"))
+        except PyRaise:
+          ok = False
       rep.check(ok, "R3", unit + ".get_config", "value:" + k,
-                "config[%r] = %r although the constructor was given %r" %
-                (k, v, want), loc=loc, instance=cfg)
+                "config[%r] = %r although the constructor was given %r, and "
+                "a quantizer built with the stored value computes a "
+                "different function" % (k, v, want), loc=loc, instance=cfg)
   # R1 from_config accepts
   stored = dict(config)     # the caller keeps this dictionary
   try:
@@ -477,6 +507,95 @@ def rule_setters(rep, repo, mod, cls, base, alts, rule="R7"):
   return n
 
 
+# Options whose late assignment today's code does NOT honour, with the reason
+# (confirmed by reading the constructors); everything else is read at call
+# time.
+NOT_LIVE = {
+    ("quantized_bits", "post_training_scale"):
+        "freeze_scale is decided once in __init__ from post_training_scale",
+    ("quantized_po2", "bits"): "_min_exp/_max_exp are derived in __init__",
+    ("quantized_po2", "max_value"):
+        "the exponent sign bit is derived in __init__",
+    ("quantized_po2", "quadratic_approximation"):
+        "_max_exp is derived in __init__",
+    ("quantized_relu_po2", "bits"):
+        "_min_exp/_max_exp are derived in __init__",
+    ("quantized_relu_po2", "max_value"):
+        "the exponent sign bit is derived in __init__",
+    ("quantized_relu_po2", "quadratic_approximation"):
+        "_max_exp is derived in __init__",
+}
+
+
+def rule_live_options(rep, repo, mod, classes, rule="R8", only=None):
+  """Live options.  The quantizers read their options when they are called,
+  not when they are built (the library itself retunes live objects:
+  `_set_trainable_parameter`, `update_qnoise_factor`, QAdaptiveActivation
+  writes `integer` / `relu_upper_bound` / `keep_negative` into its quantizer,
+  and `get_config()` / `__str__` report the current attribute values).  For
+  every constructor option except the few derived-state ones in NOT_LIVE:
+  after `q.opt = v` - on a fresh object and on one that was called before -
+  the object computes what a quantizer built with opt=v computes, so the
+  configuration it reports describes its function."""
+  n = 0
+  syms = {"post_training_scale": NF.sym("pts")}
+  for cls in classes:
+    ci = mod.classes[cls]
+    base, alts = ALTS[cls]
+    params = [p_ for p_, _ in ci.init_params()[0]]
+    unit = "%s::%s" % (mod.relpath, cls)
+    for opt, vals in sorted(alts.items()):
+      if opt not in params or (cls, opt) in NOT_LIVE or opt in (
+          "var_name", "use_variables") or (only and opt not in only):
+        continue
+      if ci.find_method(opt + ".setter")[1] is not None:
+        continue      # decided by the property-setter rule (R7)
+      for v in vals:
+        ctx = {}
+        if isinstance(v, tuple):
+          v, ctx = v
+        if v is PTS:
+          continue
+        kw_a = dict(base)
+        kw_a.update(ctx)
+        kw_b = dict(kw_a)
+        kw_b[opt] = v
+        for called in (False, True):
+          cfg = "%s(%s)%s then q.%s = %s" % (
+              cls, show_kw(kw_a), " called once," if called else "", opt,
+              show_kw({opt: v}).split("=", 1)[1])
+          pe = PE(repo)
+          cref = pe.lookup_global(cls, mod)
+          try:
+            a = pe.call(cref, [], dict(kw_a))
+            if called:
+              pe.call(a, [pe.x_input()], {})
+            pe.setattr(a, opt, v)
+            b = pe.call(cref, [], dict(kw_b))
+            pe.rand_counter = 0
+            oa = pe.call(a, [pe.x_input()], {})
+            pe.rand_counter = 0
+            ob = pe.call(b, [pe.x_input()], {})
+          except PyRaise:
+            continue
+          n += 1
+          bad = None
+          for ph in ("infer", "train"):
+            f1, f2 = Fwd(ph, syms)(oa.term), Fwd(ph, syms)(ob.term)
+            if not equal_mod_finite(f1, f2):
+              bad = bad or (ph, f1, f2)
+          rep.check(bad is None, rule, unit, "option-read-at-construction:" +
+                    opt,
+                    "%s: the object does not compute what %s(%s) computes%s "
+                    "although get_config() / str() now report %s=%s" % (
+                        cfg, cls, show_kw(kw_b), "" if bad is None else
+                        " (%s forward %s vs %s)" % (
+                            bad[0], show(bad[1], 120), show(bad[2], 120)),
+                        opt, show_kw({opt: v}).split("=", 1)[1]),
+                    loc=ci.loc(), instance=cfg)
+  return n
+
+
 def rule_registry(rep, repo, mod):
   reg = repo.module("qkeras.quantizer_registry")
   base = repo.module("qkeras.registry")
@@ -617,6 +736,13 @@ def run(rep, repo, tier):
         kw[p] = v
         roundtrip(rep, repo, mod, cls, kw, p)
         npoints += 1
+    for extra in EXTRA_POINTS.get(cls, []):
+      roundtrip(rep, repo, mod, cls, dict(base, **extra),
+                "+".join(sorted(extra)))
+      npoints += 1
+  rep.extra["live_option_assignments_checked"] = rule_live_options(
+      rep, repo, mod, qref.ALL_QUANTIZERS)
+  rep.require_instances("R8", 150)
   if tier == "thorough":
     for cls, kw in qref.lattice_all("quick", with_f=False):
       roundtrip(rep, repo, mod, cls, dict(kw), None)
